@@ -188,6 +188,7 @@ type qSrc struct {
 	cols     []string // qualified SQL names of the columns, in row order
 	joins    int
 	tables   int
+	topCross bool // the outermost join is a CROSS JOIN written without parentheses
 }
 
 func shiftCols(cols []string) []qCol {
@@ -256,6 +257,13 @@ func (g *qGen) source(w *qWorld, depth int) qSrc {
 	if r.joins > 0 {
 		rsql = "(" + r.sql + ")"
 	}
+	lsql := l.sql
+	if l.topCross && jk[2] == "on" && jk[0] != "JOIN" {
+		// "A CROSS JOIN B INNER JOIN C ON a.x = c.x" is parsed by csvq as A CROSS JOIN (B INNER JOIN C ON ..),
+		// so that A is not visible in the ON clause (finding join-after-cross-join, reproduced by a
+		// fixed corpus case); the generated stream writes the parentheses explicitly
+		lsql = "(" + l.sql + ")"
+	}
 	if jk[2] == "on" {
 		// mostly an equality between a left and a right column so that rows match
 		var c qE
@@ -270,11 +278,12 @@ func (g *qGen) source(w *qWorld, depth int) qSrc {
 		} else {
 			c = g.cond(shiftCols(cols), 1)
 		}
-		s.sql = l.sql + " " + jk[0] + " " + rsql + " ON " + c.sql
+		s.sql = lsql + " " + jk[0] + " " + rsql + " ON " + c.sql
 		s.coq = fmt.Sprintf("(SrcJoin %s %s %s (Some %s))", jk[1], l.coq, r.coq, c.coq)
 	} else {
 		s.sql = l.sql + " " + jk[0] + " " + rsql
 		s.coq = fmt.Sprintf("(SrcJoin %s %s %s None)", jk[1], l.coq, r.coq)
+		s.topCross = true
 	}
 	return s
 }
